@@ -5,10 +5,20 @@ Per run:
   (0) translator obligations: the keyword wiring of the five dadi.Integration calls in Demes._integrate_phi (which nu / M /
       frozen / gamma / h entry reaches which parameter) and the Demes events recorded by the PhiManip pulse functions are
       re-extracted from the current source (fail closed) and compared with the expected descriptors (Coq: reflexivity);
+      every closure of dadi/Demes/Demes.py and DemesUtil.py (the per-deme size functions of _make_nu_func) may read only names
+      of the enclosing function that are bound once and outside loops - per-deme values must enter as default arguments
+      (late_bound_closures: a value hoisted out of the lambda into a loop variable is shared by all size functions of the epoch);
   (1) call-log correspondence: dadi.Spectrum.from_demes runs on generated graphs with every dadi.PhiManip.* /
       dadi.Integration.* / Spectrum.from_phi call logged; the resolved graph (as `demes` resolves it) and the discrete events
       `demes` reports go to the Coq model, whose program is compared with the logged one inside Coq (function, deme labels,
-      integer arguments, frozen flags exactly; T, nu, m, proportions at 1e-12; size functions by value at five times);
+      integer arguments, frozen flags exactly; T, nu, m, proportions at 1e-12; every logged size FUNCTION by value at the five
+      times 0, T/4, T/2, 3T/4, T against the model's size function of that population);
+      the generator contains, on every run, integration epochs in which 2 and 3 demes ALL change size with pairwise different
+      parameters (c16_gen.sizefn_family: linear/linear, linear/exponential, exponential/exponential, linear next to constant,
+      ..., directions alternating, epochs aligned and staggered; coverage is an obligation), each with a hand-written native
+      program; a size function handed to an integrator that is not positive somewhere in [0, T] (17 probe times) is reported as
+      an error of that run before the integrator is entered (its time step would collapse and the run never end), and every
+      unit of work of the driver has a wall-clock limit - both are failing inputs, never a reason to stop the check;
       the conclusion of frozen_flags_wired is evaluated on every logged integration call;
   (2) numeric invariances on the implementation (1e-9 relative to the largest entry): years vs generations, rescaling by c,
       sampled demes in another order, the (source, proportion) pairs of multi-source pulses listed in another order, ancient
@@ -18,6 +28,9 @@ Per run:
       graph on which the importer's call sequence leaves the model is itself the failing input;
   (3) export round trip: random native programs (1-5 populations) run with the event log on, exported with
       dadi.Demes.output and re-imported with from_demes; programs compared call by call after relabelling, spectra at 1e-8;
+      fixed programs with one integration in which 2..5 populations change size with pairwise different parameters
+      (sizefn_programs: linear/linear, linear/exponential, exponential/exponential, linear next to constant populations, which
+      Demes.output labels `linear`);
       the YAML files of /repo/tests/demes.
 """
 import ast, itertools, json, math, os
@@ -186,6 +199,60 @@ def expected_pulse_event(name, params):
     srcs = [k for k in range(1, d + 1) if k != dest]
     return {'sources': srcs, 'dest': dest, 'proportions': fs}
 
+def late_bound_closures(path):
+    """[(function, line of the closure, name, why)]: closures (lambda / nested def) whose body reads a local name of the enclosing
+    function that is bound inside a loop or more than once.  Python closures look such a name up when they are CALLED: every
+    size function built in one pass of `for s in sizes:` would see the value of the LAST pass.  Names bound as default
+    arguments of the closure (`lambda t, N0=s[0]: ...`) are evaluated at the definition and are fine."""
+    tree = ast.parse(open(path).read())
+    bad = []
+    def params(a):
+        return {x.arg for x in a.posonlyargs + a.args + a.kwonlyargs} | ({a.vararg.arg} if a.vararg else set()) | ({a.kwarg.arg} if a.kwarg else set())
+    for fn in [n for n in ast.walk(tree) if isinstance(n, ast.FunctionDef)]:
+        stores = {}          # local name -> [bound inside a loop?] per binding
+        closures = []
+        def visit(n, loop):
+            for ch in ast.iter_child_nodes(n):
+                if isinstance(ch, (ast.Lambda, ast.FunctionDef, ast.AsyncFunctionDef)):
+                    closures.append(ch)
+                    if isinstance(ch, ast.FunctionDef):
+                        stores.setdefault(ch.name, []).append(loop)
+                    for dflt in ch.args.defaults + [d for d in ch.args.kw_defaults if d is not None]:
+                        visit(dflt, loop)
+                    continue
+                if isinstance(ch, (ast.ListComp, ast.SetComp, ast.DictComp, ast.GeneratorExp, ast.ClassDef)):
+                    continue                       # scopes of their own
+                if isinstance(ch, ast.Name) and isinstance(ch.ctx, (ast.Store, ast.Del)):
+                    stores.setdefault(ch.id, []).append(loop)
+                if isinstance(ch, (ast.For, ast.AsyncFor, ast.While)):
+                    if isinstance(ch, ast.While):
+                        visit(_Wrap(ch.test), True)
+                    else:
+                        visit(_Wrap(ch.target), True); visit(_Wrap(ch.iter), loop)
+                    for st in ch.body + ch.orelse:
+                        visit(_Wrap(st), True)
+                    continue
+                visit(ch, loop)
+        visit(fn, False)
+        fparams = params(fn.args)
+        for c in closures:
+            own = params(c.args) | {x.id for x in ast.walk(c) if isinstance(x, ast.Name) and isinstance(x.ctx, ast.Store)}
+            body = c.body if isinstance(c.body, list) else [c.body]
+            reads = {x.id for b_ in body for x in ast.walk(b_) if isinstance(x, ast.Name) and isinstance(x.ctx, ast.Load)} - own
+            for nm in sorted(reads):
+                nb = len(stores.get(nm, [])) + (1 if nm in fparams else 0)
+                if nm in stores and any(stores[nm]):
+                    bad.append((fn.name, c.lineno, nm, 'bound inside a loop'))
+                elif nb > 1:
+                    bad.append((fn.name, c.lineno, nm, 'bound %d times' % nb))
+    return bad
+
+class _Wrap(ast.AST):
+    """a node with exactly one child (so that a statement / expression can be visited together with itself)"""
+    _fields = ('node',)
+    def __init__(self, node):
+        self.node = node
+
 def translator_obligations(ctx):
     """returns (wiring or None, {pulse function: recorded event ok?})"""
     wiring = None
@@ -210,6 +277,15 @@ def translator_obligations(ctx):
         okgh = all(wiring[d]['gamma'] == list(range(d)) and wiring[d]['h'] == list(range(d)) for d in wiring)
         ctx.obligation('gamma_k / h_k receive gamma[k-1] / h[k-1] in every integration call', okgh, 'translator',
                        '' if okgh else repr({d: (wiring[d]['gamma'], wiring[d]['h']) for d in wiring}))
+    for path in (DEMES_PY, UTIL_PY):
+        rel = os.path.relpath(path, lib.REPO)
+        try:
+            lb = late_bound_closures(path)
+            ctx.obligation('%s: every closure (size function) reads only names of the enclosing function that are bound once and outside '
+                           'loops - per-deme values enter as default arguments' % rel, not lb, 'translator',
+                           '; '.join('%s (line %d) reads %s, %s' % x for x in lb[:4]))
+        except (SyntaxError, OSError) as e:
+            ctx.obligation('%s: closures can be read' % rel, False, 'translator', str(e))
     res = lib.run_case_files(files, timeout=300) if files else {}
     bad_frozen = []
     for n, (rc, so, se, secs) in sorted(res.items()):
@@ -687,7 +763,8 @@ def family_cases(ctx):
     out = []
     for rep in range(ctx.pick(1, 4)):
         rng = random.Random('C16-families-%d-%d' % (ctx.seed, rep))
-        for c in G.slice_family(rng) + G.boundary_family(rng) + G.pulse_family(rng, rep):
+        # (new families are appended: the earlier ones keep their inputs)
+        for c in G.slice_family(rng) + G.boundary_family(rng) + G.pulse_family(rng, rep) + G.sizefn_family(rng, rep):
             c['ns'] = [rng.randint(2, 3) if c['maxd'] <= 3 else 2 for _ in c['sampled']]
             c['pts'] = PTS[c['maxd']]
             out.append(c)
@@ -773,6 +850,39 @@ def case_class(c, r):
     return info
 
 REGIME = set()          # which parts of the all-ancient / cut-growth-epoch regime the run has exercised (fail closed)
+
+# integration epochs in which several demes change size, each with its own parameters (fail-closed generator coverage)
+SIZEFN_REGIME = set()
+SIZEFN_NEED = ['2 demes: linear/linear', '2 demes: exponential/linear', '2 demes: exponential/exponential', '2 demes: constant/linear',
+               '3 demes: linear/linear/linear', '3 demes: exponential/exponential/exponential', '3 demes: all non-constant, linear and exponential',
+               '3 demes: linear next to constant', 'a linear deme listed before another linear deme with a different slope',
+               'an epoch of a growing deme cut into several integration epochs next to another growing deme']
+
+def note_sizefn_regime(ctx, orig, tmin):
+    eps = G.sizefn_epoch_classes(orig, tmin)
+    keys = set()
+    for n, kinds, distinct, linlin in eps:
+        if n > 3 or not distinct:
+            continue
+        if n == 2:
+            keys.add('2 demes: ' + '/'.join(kinds))
+        elif n == 3:
+            if 'constant' in kinds and 'linear' in kinds:
+                keys.add('3 demes: linear next to constant')
+            elif 'constant' not in kinds:
+                keys.add('3 demes: ' + '/'.join(kinds) if len(set(kinds)) == 1 else '3 demes: all non-constant, linear and exponential')
+        if linlin:
+            keys.add('a linear deme listed before another linear deme with a different slope')
+    # a non-constant epoch of one deme spanning several integration epochs in which another deme is non-constant too
+    for d in orig['demes']:
+        for e in d['epochs']:
+            if e['size_function'] != 'constant' and e['start_time'] != INF:
+                cuts = {x for d2 in orig['demes'] if d2 is not d for e2 in d2['epochs'] for x in (e2['start_time'], e2['end_time'])
+                        if e2['size_function'] != 'constant' and e['start_time'] > x > max(e['end_time'], tmin)}
+                if cuts:
+                    keys.add('an epoch of a growing deme cut into several integration epochs next to another growing deme')
+    for k in keys:
+        SIZEFN_REGIME.add(k); ctx.count('size functions in one epoch: ' + k)
 
 def resolved_size_at(orig, name, u):
     """size of a deme of a resolved graph at time u (first epoch with start > u >= end; closed formulas)"""
@@ -1022,13 +1132,17 @@ def run(ctx):
                 'with 2 or 3 sources and pairwise different proportions among 3 or 4 demes: destination oldest / in the middle / youngest '
                 'x sources listed in population order / reverse / rotated x nothing else, an epoch boundary, migration boundaries, a '
                 'branch, a second multi-source pulse at the pulse time; bystander demes; destination\'s parent among the sources; each '
-                'with a hand-written native program); DemesUtil.slice on its own '
+                'with a hand-written native program) and the size-function family (2 and 3 demes alive whose sizes over one integration '
+                'epoch ALL change with pairwise different parameters: every combination linear/linear, linear/exponential, '
+                'exponential/exponential, linear next to constant, directions alternating, epochs aligned or staggered, each with a '
+                'hand-written native program); DemesUtil.slice on its own '
                 'for every graph at its own slice time and at times chosen per class (inside / at the end of growth epochs, epoch '
                 'boundaries, pulse and migration times, deme starts), '
                 'hand-written native models and the YAML files of tests/demes; numeric variants (units, rescale, order, explicit '
                 'frozen branches, pulse pairs listed in another order) of every case and the model\'s program of every case executed as '
                 'a native dadi model; export cases = random native programs of 1-5 populations plus fixed ones (4-D / 5-D pulses; '
-                'reorder_pops followed by a multi-source pulse with different fractions); distinct = distinct '
+                'reorder_pops followed by a multi-source pulse with different fractions; one integration of 2-5 populations changing size with '
+                'pairwise different linear / exponential parameters, also next to constant populations); distinct = distinct '
                 '(graph, sampling spec) / program; non-trivial = at least one integration with >= 2 populations or an event')
     ctx.assumptions += ['the `demes` package (0.2.3) is the oracle for graph resolution, discrete_demographic_events and in_generations',
                         'model and logged arguments are compared at 1e-12 relative (float64 arithmetic of the importer vs exact rationals; '
@@ -1102,6 +1216,8 @@ def log_phase(ctx, cases, wiring, pnu, bad_frozen):
     for c in cases:
         r = byid[c['id']]
         info = case_class(c, r); infos[c['id']] = info
+        if 'orig' in r:
+            note_sizefn_regime(ctx, r['orig'], info['tmin'])
         ctx.count('maxd=%d' % c['maxd']); ctx.count('tag=' + c['tag'].split(':')[0])
         ctx.count('units=' + c['graph'].get('time_units', 'generations'))
         if info['ancient']: ctx.count('ancient samples')
@@ -1122,6 +1238,19 @@ def log_phase(ctx, cases, wiring, pnu, bad_frozen):
                 ctx.violation('from_demes raises %s: a population that is not an ancient-sample branch receives the frozen flag of '
                               'another one (sampled=%r times=%r)' % (r['error'][:100], c['sampled'], c['times']),
                               data={'kind': 'log', 'case': strip(c), 'impl_error': r['error']}, key=key)
+                continue
+            if r['error'].startswith(('NonPositiveSize', 'Watchdog')):
+                # the importer handed an integrator a size function that leaves the positive numbers (every size of the graph is
+                # positive), or its run did not end: the graph is the failing input
+                nps = r['error'].startswith('NonPositiveSize')
+                ctx.count('impl: ' + r['error'].split(':')[0])
+                ctx.obligation('case %d (%s): from_demes runs to completion with positive population sizes' % (c['id'], c['tag']), False, 'predicate', r['error'][:300])
+                ctx.violation(('from_demes hands the integrator a size function that is not positive although every deme of the graph has positive '
+                               'sizes (the native model of the graph integrates positive sizes): %s' if nps else
+                               'from_demes does not terminate on a generated graph: %s') % r['error'][:260]
+                              + ' (%s; sampled=%r times=%r Ne=%r)' % (c['tag'], c['sampled'], c['times'], c.get('Ne')),
+                              data={'kind': 'log', 'case': strip(c), 'impl_error': r['error'], 'last_call': r.get('calls', [])[-1:]},
+                              key='from_demes:%s' % ('size-function-not-positive' if nps else 'does-not-terminate'))    # groups further inputs, not a known finding
                 continue
             if 'events' in r and 'orig' in r:
                 try:
@@ -1358,6 +1487,9 @@ def log_phase(ctx, cases, wiring, pnu, bad_frozen):
         for x in PULSE_NEED:
             ctx.obligation('generator coverage: a pulse with several sources and pairwise different proportions - %s' % x,
                            x in PULSE_REGIME, 'harness', '' if x in PULSE_REGIME else 'no generated case reached this part of the regime')
+        for x in SIZEFN_NEED:
+            ctx.obligation('generator coverage: an integration epoch in which the demes change size with pairwise different parameters - %s' % x,
+                           x in SIZEFN_REGIME, 'harness', '' if x in SIZEFN_REGIME else 'no generated case reached this part of the regime')
     lap(ctx, 'log phase rest')
     return {c['id']: byid[c['id']]['orig'] for c in cases if 'orig' in byid[c['id']]}
 
@@ -1443,6 +1575,8 @@ def slice_phase(ctx, cases, origs):
     for c in cases:
         if c.get('slice_ts') is not None:
             ts = [('replay', t) for t in c['slice_ts']]
+        elif ctx.quick and c['tag'].startswith('sizefn-family'):
+            continue            # that family is about the size functions of one integration epoch, not about slicing (thorough tier only)
         else:
             orig = origs.get(c['id'])
             if orig is None:
@@ -1524,7 +1658,41 @@ def forced_programs():
     base5 = base4 + [['split', 3], ['integrate', 0.0625, sf(5), None, None]]
     for dest in (1, 2, 3, 4, 5):
         out.append((base5 + [['pulse', dest, [0.125, 0.0, 0.25, 0.0]], ['integrate', 0.03125, sf(5), None, None]], 5, 'forced-5D-pulse-into-%d' % dest))
-    return out + reorder_pulse_programs()
+    return out + reorder_pulse_programs() + sizefn_programs()
+
+def sizefn_programs():
+    """one integration in which 2..5 populations change size with pairwise different parameters: linear/linear (the first
+    shrinking while the last grows, and the other way round), linear/exponential, exponential/exponential, and a linearly
+    changing population next to constant ones inside a non-constant integration (Demes.output labels those constant
+    populations `linear` with equal sizes; in a 4- / 5-population integration every population is exported that way) - the
+    re-imported graph then has several `linear` demes with different slopes in one epoch."""
+    L = lambda a, b_: ['l', a, b_]; E = lambda a, b_: ['e', a, b_]; K = lambda a: ['c', a]
+    out = []
+    pre = {2: [['phi_1D', 1.0], ['integrate', 0.125, [K(1.0)], None, None], ['split', 1]],
+           3: [['phi_1D', 1.0], ['integrate', 0.125, [K(1.0)], None, None], ['split', 1],
+               ['integrate', 0.0625, [K(1.5), K(0.75)], None, None], ['split', 2]]}
+    pre[4] = pre[3] + [['integrate', 0.0625, [K(1.5), K(0.75), K(2.0)], None, None], ['split', 1]]
+    pre[5] = pre[4] + [['integrate', 0.03125, [K(1.5), K(0.75), K(2.0), K(1.0)], None, None], ['split', 3]]
+    combos = [
+        (2, 'linear-down/linear-up', [L(2.0, 0.5), L(0.75, 3.0)]), (2, 'linear-up/linear-down', [L(0.5, 2.5), L(3.0, 1.0)]),
+        (2, 'linear-up/linear-up', [L(0.5, 1.5), L(1.0, 4.0)]), (2, 'linear/exponential', [L(2.0, 0.75), E(0.5, 2.0)]),
+        (2, 'exponential/linear', [E(3.0, 1.0), L(0.5, 2.0)]), (2, 'exponential/exponential', [E(1.0, 3.0), E(2.0, 0.5)]),
+        (2, 'linear/constant', [L(2.0, 0.5), K(1.5)]), (2, 'constant/linear', [K(1.5), L(0.5, 2.5)]),
+        (2, 'exponential/constant', [E(0.5, 2.0), K(0.75)]),
+        (3, 'linear/linear/linear', [L(2.0, 0.5), L(0.75, 3.0), L(1.0, 1.5)]), (3, 'linear/exponential/linear', [L(0.5, 2.0), E(3.0, 1.0), L(2.5, 0.75)]),
+        (3, 'exponential/linear/exponential', [E(0.5, 1.5), L(2.0, 0.5), E(4.0, 1.0)]), (3, 'exponential/exponential/exponential', [E(0.5, 1.5), E(3.0, 0.75), E(1.0, 4.0)]),
+        (3, 'linear/constant/linear', [L(2.0, 0.5), K(1.25), L(0.75, 3.0)]), (3, 'constant/linear/constant', [K(1.5), L(0.5, 2.0), K(0.75)]),
+        (3, 'linear/constant/exponential', [L(3.0, 1.0), K(0.75), E(0.5, 2.0)]),
+        (4, 'linear/constant/constant/constant', [L(2.0, 0.5), K(1.5), K(0.75), K(1.0)]), (4, 'constant/linear/linear/exponential', [K(1.5), L(0.5, 2.0), L(3.0, 1.0), E(1.0, 2.0)]),
+        (5, 'linear/constant/constant/constant/constant', [L(0.5, 2.0), K(1.5), K(0.75), K(1.0), K(2.0)]),
+        (5, 'constant/linear/exponential/linear/constant', [K(1.5), L(2.0, 0.5), E(0.5, 1.5), L(0.75, 3.0), K(1.0)])]
+    for k, (d, name, sfs) in enumerate(combos):
+        M = None
+        if k % 3 == 1:
+            M = [[0.0 if a == b_ else [0.5, 0.25, 1.0][(a + 2 * b_) % 3] if (a + b_) % 2 == 1 else 0.0 for b_ in range(d)] for a in range(d)]
+        T = {2: 0.125, 3: 0.125, 4: 0.0625, 5: 0.03125}[d]
+        out.append((pre[d] + [['integrate', T, sfs, M, None]], d, 'forced-sizefn-%d-%s' % (d, name)))
+    return out
 
 def reorder_pulse_programs():
     """reorder_pops, then a pulse with several sources and pairwise different non-zero fractions: the exported pulse lists its
@@ -1694,7 +1862,7 @@ def export_phase(ctx, progs, pulses_bad, pnu):
             progs.append({'ops': ops, 'ns': [rng.randint(1, 3 if d <= 3 else 2) for _ in range(d)], 'pts': {1: 14, 2: 12, 3: 9, 4: 6, 5: 5}[maxd],
                           'Nref': rng.choice([8.0, 16.0, 100.0, 1000.0]), 'gen_time': rng.choice([None, None, 25.0]), 'tag': 'random'})
         for ops, d, tag in forced_programs():
-            progs.append({'ops': ops, 'ns': [2 if d == 3 else 1] * d, 'pts': {3: 9, 4: 6, 5: 5}[d], 'Nref': 8.0, 'gen_time': None, 'tag': tag})
+            progs.append({'ops': ops, 'ns': [2 if d <= 3 else 1] * d, 'pts': {2: 12, 3: 9, 4: 6, 5: 5}[d], 'Nref': 8.0, 'gen_time': None, 'tag': tag})
         for f, sampled, ns, pts in YAMLS:
             progs.append({'yaml': os.path.join(TESTS_DEMES, f), 'sampled': sampled, 'ns': ns, 'pts': pts, 'tag': 'yaml:' + f,
                           'Nref': {'bottleneck.yaml': 1e4, 'browning_america.yaml': 7310, 'gutenkunst_ooa.yaml': 7300, 'linear_size_function_example.yaml': 100,
